@@ -65,6 +65,13 @@ def session(rng, cuts):
                 s.link(name, rng.choice([b"a", b"l1"]), "KA", chan(rng), True)
             else:
                 s.pub(name, "KA", chan(rng), b"x")
+        # fault before the ending: the victim's socket starts failing while others publish to it; the
+        # teardown must still happen exactly once, at the ending
+        if held and rng.randrange(3) == 0:
+            s.deafen(name)
+            s.clients.append(name)
+            for _ in range(rng.choice([1, 2, 4])):
+                s.pub(rng.choice(["w1", "w2"]), "KA", rng.choice(held).replace(b"+", rng.choice(WORDS)), b"f")
         # the ending
         r = rng.randrange(10)
         if r < 6:
